@@ -6,7 +6,7 @@
 From Coq Require Import List NArith ZArith.
 Import ListNotations.
 Require Import Base.Wire Base.PyStr C12.Model C12.Wrap C12.More C12.Fits C12.Plain C12.Total
-  C12.Chars C12.Parser C12.Format C12.Visible C12.EndToEnd C12.MoreNick C12.FmtEndToEnd.
+  C12.Chars C12.Parser C12.Format C12.Visible C12.EndToEnd C12.MoreNick C12.FmtEndToEnd C12.Ident.
 
 (* ---- byteTextWrap, for every word list (the output of TextWrapper._split_chunks is an
         explicit input) and every size >= 4 ---- *)
@@ -206,6 +206,19 @@ Theorem C12_reply_fmt_end_to_end : forall k s0 sent L number times,
     /\ ((Z.of_nat (length s0) <= allowed_length k * Z.of_N (c_maximum k))%Z -> text = s0).
 Proof. exact reply_fmt_end_to_end. Qed.
 Print Assumptions C12_reply_fmt_end_to_end.
+
+(* ---- the hostmask reply() measures is the one the server prepends ----
+   c_prefix of the theorems above is irc.prefix.  Irc.feedMsg learns it from any message of the bot itself
+   and Irc.doNick follows the bot's own NICK (nick first, then the prefix rebuilt from it): whatever the
+   server does -- own messages, renames of the bot, messages and renames of others who do not carry the
+   bot's nick -- irc.nick is the bot's nick on the server and, once one own message or rename was seen,
+   irc.prefix is nick!user@host for that nick. *)
+Theorem C12_prefix_tracks : forall U H acts N st known,
+  i_nick st = N -> (known = true -> i_prefix st = hostmask N U H) -> others_ok N acts ->
+  let (N', st') := srv_run U H N st acts in
+  i_nick st' = N' /\ (orb known (seen_own acts) = true -> i_prefix st' = hostmask N' U H).
+Proof. exact prefix_tracks. Qed.
+Print Assumptions C12_prefix_tracks.
 
 (* ---- FormatParser never raises (full since the repair of F40) ---- *)
 Theorem C12_parse_total : forall s, exists r, parse s = Ok r.
